@@ -9,7 +9,7 @@ ASSUMPTIONS = [
     'enumerator / constant values: model text with its S_ENUM rows in every order (text realised)',
 ]
 GRAPHS = ['fn_fn', 'depth3_scopes', 'recursion', 'mutual', 'permuted_names', 'in_conditions', 'in_where', 'instance_op', 'class_op',
-          'bridge', 'derived', 'return_forms', 'op_calls_op', 'side_effect_operands', 'derived_other', 'same_label', 'return_in_loops', 'multi_bridge', 'statement_keywords']
+          'bridge', 'derived', 'return_forms', 'op_calls_op', 'side_effect_operands', 'derived_other', 'same_label', 'return_in_loops', 'multi_bridge', 'statement_keywords', 'derived_population', 'nested_arguments']
 
 
 def conditions(tier, seed):
